@@ -4,6 +4,7 @@ CONSTANTS MultipliedEndForNominal <- On
           FirstAfterIgnoresEnd <- Off
           MaxTake = 6
           ShiftMovesStoredPoints <- Off
+          WinSpecs <- NoWins
           Shifts <- NoShifts
           Intervals <- AllIv
           Fmts <- F13
